@@ -333,9 +333,10 @@ prop('C17', level='other', units=['bycycle.cyclepoints.phase._merge_phases'], jo
                  'alternating placement with gaps >= 2 on arrays up to length 9 (12), with and without midpoints (coinciding with '
                  'extrema included), plus corpus cyclepoints at several boundaries.')
 
-prop('C18', level='other', units=[DF + 'drop_samples_df', DF + 'limit_df', DF + 'split_samples_df', 'bycycle.utils.timeseries.limit_signal'], jobs=['limit_df', 'limit_signal', 'samples_split_flatten', 'armed_limit'],
+prop('C18', level='other', units=[DF + 'drop_samples_df', DF + 'limit_df', DF + 'split_samples_df', 'bycycle.utils.timeseries.limit_signal',
+                                  DF + 'flatten_dfs'], jobs=['limit_df', 'limit_signal', 'samples_split_flatten', 'armed_limit'],
      unit_jobs={DF + 'limit_df': ['limit_df', 'armed_limit'], 'bycycle.utils.timeseries.limit_signal': ['limit_signal'],
-                DF + 'split_samples_df': ['samples_split_flatten']},
+                DF + 'split_samples_df': ['samples_split_flatten'], DF + 'flatten_dfs': ['samples_split_flatten']},
      explanation='Proved: drop_samples_df (column partition, values unaltered) and limit_df - for tables of any length whose '
                  'cycles close after they open (C01), both centrings, either limit optional: the result consists of rows of the '
                  'input in their original order, every value unchanged, every cycle entirely inside [start, stop] among them and '
@@ -344,8 +345,11 @@ prop('C18', level='other', units=[DF + 'drop_samples_df', DF + 'limit_df', DF + 
                  'the two mask selections, explicit instances; np.round(x, 6) as a nearest multiple of 1e-6 over the reals - the '
                  'floating-point side of the comparison, defect D13, stays with the bounded job); limit_signal - both returned arrays are exactly the entries with '
                  'start <= t < stop, in order (same witness construction over the two array selections); split_samples_df - the '
-                 'sample_* columns are popped out of the input table into a second one, no value altered. Bounded: flatten_dfs on '
-                 'exhaustive small grids; the three proved functions again on small grids, off-grid and large-index windows.')
+                 'sample_* columns are popped out of the input table into a second one, no value altered; flatten_dfs (group level, '
+                 'tables and labels opaque) - the result is the row-wise concatenation of the tables in list order (row-major for 2-D '
+                 'lists) and table i (table [i][j]) is the given one with the label column set to labels[i] (the row-major label '
+                 'number i * n1 + j), a wrong label count raises ValueError. Bounded: all of these again on small grids, off-grid and '
+                 'large-index windows; what concat and a scalar column assignment do inside pandas.')
 
 prop('C20', level='other', units=[], jobs=['plots', 'limit_df', 'limit_signal'],
      explanation='Bounded: the arguments handed to the external drawing routines (ghost log by interception) on corpus tables x '
